@@ -9,6 +9,7 @@ import (
 	"flag"
 	"fmt"
 	"os"
+	"runtime"
 	"strconv"
 	"strings"
 	"time"
@@ -133,6 +134,25 @@ func floatTable(d *getoptions.VerifDump, argv []string) (map[string]*float64, []
 }
 
 // runParse builds the program, runs Parse on argv and renders the Coq case.
+// parseDeadline - how long one Parse call may take before it counts as a hang (C19).
+var parseDeadline = 3 * time.Second
+
+// memoryWatchdog ends the process when the library allocates without bound (a runaway loop in a
+// goroutine that cannot be stopped would otherwise exhaust the machine).
+func memoryWatchdog() {
+	go func() {
+		var m runtime.MemStats
+		for {
+			time.Sleep(200 * time.Millisecond)
+			runtime.ReadMemStats(&m)
+			if m.Sys > 8<<30 {
+				fmt.Printf("IMPL-FAILURE argv=? panic=\"\" hang=true memory=%d (the process grew beyond 8 GiB: unbounded allocation)\n", m.Sys)
+				os.Exit(5)
+			}
+		}
+	}()
+}
+
 // repeatRuns - C20: how often every case is executed again (fresh definition each time; Go
 // randomises map iteration order per range statement) to compare all observables
 var repeatRuns = 0
@@ -205,7 +225,7 @@ func runParseWith(seed int64, p *ProgDef, argv []string, hook func(*Built)) *Par
 	var r res
 	select {
 	case r = <-ch:
-	case <-time.After(10 * time.Second):
+	case <-time.After(parseDeadline):
 		obs.Hang = true
 		obs.features()
 		return obs
@@ -334,6 +354,15 @@ func cmdParse(args []string) {
 		if obs.Panic != "" || obs.Hang {
 			enc.Encode(obs)
 			fmt.Printf("IMPL-FAILURE argv=%q panic=%q hang=%v\n", obs.Argv, obs.Panic, obs.Hang)
+			if obs.Hang {
+				// the goroutine that did not return cannot be stopped and may allocate without bound:
+				// what was observed so far is written out and the process ends here
+				ow.Flush()
+				of.Sync()
+				writeSexpCases(*out, defs)
+				fmt.Printf("ABORTED-AFTER-HANG cases=%d\n", len(defs))
+				os.Exit(4)
+			}
 			continue
 		}
 		ci := len(defs)
@@ -357,6 +386,7 @@ func cmdParse(args []string) {
 }
 
 func main() {
+	memoryWatchdog()
 	if len(os.Args) < 2 {
 		fmt.Fprintln(os.Stderr, "usage: hx <parse|...> [flags]")
 		os.Exit(2)
